@@ -51,3 +51,24 @@ let () =
       (match client_decides (bytes_of_hex u) (z_of_string p) o with
        | Some b -> str_of_bool b | None -> "?")
     | _ -> "?args")
+
+let () =
+  register "tunnel_e2e" (function [u; p; evs; g; cls; late] ->
+      let u = bytes_of_hex u and p = z_of_string p in
+      let (evs, _) = parse_evs evs in
+      let s = rreplay u p evs in
+      let late = bool_of late in
+      let gi = if g = "-" then -1 else int_of_string g in
+      let obs = List.mapi (fun i (k : conn) ->
+          if k.k_tx <> [] && k.k_pc <> HRefused && not (i = gi && late && cls = "genuine") then "R" else "-") s.s_conns in
+      let o = match cls with
+        | "nil" -> CoNil
+        | "stranger" -> CoConn (true, false, None)
+        | "dead" -> CoConn (false, true, None)
+        | _ ->
+          (match List.nth_opt s.s_conns gi with
+           | None -> CoNil
+           | Some k -> if k.k_pc = HRefused then CoNil
+             else CoConn (late, false, (if k.k_tx = [] then None else Some k.k_tx))) in
+      String.concat "," obs ^ "|path=" ^ (match client_decides u p o with Some true -> "T" | _ -> "I")
+    | _ -> "?args")
